@@ -40,7 +40,7 @@ def make(which, with_pref):
             cx.assume(m >= 1)  # precondition: at least one objective (Mean divides by m)
             pref = None
             if with_pref:
-                pref, plen = sym_vector(cx, "u")
+                pref, plen = sym_vector(cx, "u", dtype=J.dtype)
             kind, agg = call_catch(lambda: it.call(H.repo.get(cls), [], {"pref_vector": pref, "norm_eps": a, "reg_eps": b}))
             if kind == "raise":
                 cx.oblige(f"{tag}.ctor_accepts_vectors", False)
